@@ -387,7 +387,10 @@ Definition normalize (s : N) : N := normalize_with FO.subset_bits FO.normalize_r
 (* ------------------------------------------------------------------ WordInfos::get_word_info *)
 (* lexicon = for each word id the bytes from its word-info offset on *)
 Definition lexicon := list bytes.
-Definition lex_get (lx : lexicon) (w : N) : option bytes := nth_error lx (N.to_nat w).
+(* bytes[index..] beyond the table is a panic / garbage: None.  (The guard keeps N.to_nat away from raw ids with a
+   dictionary bit, 2^28 and more, when the model is run.) *)
+Definition lex_get (lx : lexicon) (w : N) : option bytes :=
+  if w <? N.of_nat (List.length lx) then nth_error lx (N.to_nat w) else None.
 
 Definition get_word_info (lx : lexicon) (has_syn : bool) (wid : N) (subset : N) : option winfo :=
   let subset := if has_syn then subset else N.clearbit subset SYN_BIT in
